@@ -106,6 +106,7 @@ def tokText (t : Tok) : Except ParseErr String :=
   | .str s => .ok s
   | .int n => .ok (toString n)
   | .float q => (match pyFloatRepr q with | some s => .ok s | none => .error .outside)
+  | .negZero => .ok "-0.0"
   | .none => .ok ""
 
 /-- `plain_string := (INT|FLOAT|PLAIN_STRING|ID)* (PLAIN_STRING|ID)`, greedy; value = concatenation of `str(token value)` -/
@@ -162,7 +163,7 @@ def permissive (fuel : Nat) (ts : List Tok) : PR (String × Nat) :=
     | .error e => .error e
     | .ok (v, rest') => .ok ((v, line), rest')
 
-def numVal (t : Tok) : EVal := match t.val with | .int n => .int n | .float q => .float q | .str s => .str s | .none => .str ""
+def numVal (t : Tok) : EVal := match t.val with | .int n => .int n | .float q => .float q | .negZero => .float 0 | .str s => .str s | .none => .str ""
 
 /-- is a `tuple_pair` coming: `STRING ':'` or `plain_string ':'` (look-ahead only; lexer errors are not raised here) -/
 def atPair (ts : List Tok) : Bool :=
